@@ -148,7 +148,7 @@ CssF(s, h, rest) ==
   IF ~h.has THEN EmitF(s, h.suffix, rest)
   ELSE LET s1 == NoteUnbound(s, h.e) v == Eval(h.e, X(s)!Env) IN
        IF IsBad(v) THEN BadF(s1, v)
-       ELSE IF v.t = "undef" THEN FailF(s1)
+       ELSE IF v.t = "undef" THEN NoClaimF(s1)
        ELSE IF ~Printable(v) THEN NoClaimF(s1)
        ELSE EmitF(s1, ToText(v) \o "-" \o h.suffix, rest)
 
@@ -173,7 +173,7 @@ SwitchF(s, h, rest) ==
 ForEnterF(s, h, rest) ==
   LET s1 == NoteUnbound(s, h.e) v == Eval(h.e, X(s)!Env) IN
   IF IsBad(v) THEN StopF(s1, BadSt(v))
-  ELSE IF v.t # "list" THEN FailF(s1)
+  ELSE IF v.t # "list" THEN NoClaimF(s1)           \* ill-typed: no claim (as SoyExec)
   ELSE IF Len(v.v) = 0 THEN
        [s1 EXCEPT !.ctl = (IF h.empty.has THEN X(s)!Block("ifempty", h.empty.body) ELSE <<>>) \o rest]
   ELSE [SetTopF(s1, X(s)!PushFrame(TopF(s))) EXCEPT
@@ -203,9 +203,9 @@ CallBeginF(s, h, rest) ==
       pe == IF "render_mutates_data" \in Dev
             THEN [tmpl |-> h.tmpl, data |-> base.v, all |-> h.data = "all"]
             ELSE [tmpl |-> h.tmpl, data |-> base.v] IN
-  IF h.tmpl \notin DOMAIN s.prog.bundle THEN FailF(s1)
+  IF h.tmpl \notin DOMAIN s.prog.bundle THEN NoClaimF(s1)
   ELSE IF IsBad(base) THEN StopF(s1, BadSt(base))
-  ELSE IF base.t # "map" THEN FailF(s1)
+  ELSE IF base.t # "map" THEN NoClaimF(s1)
   ELSE [s1 EXCEPT !.pend = Append(@, pe), !.ctl = h.params \o <<[k |-> "docall"]>> \o rest]
 
 \* a param is written into the callee's data; the deviation lets the write
@@ -239,7 +239,7 @@ CallEnterF(s, sh, rest) ==
 PluralF(s, h, rest) ==
   LET s1 == NoteUnbound(s, h.e) v == Eval(h.e, X(s)!Env) IN
   IF IsBad(v) THEN StopF(s1, BadSt(v))
-  ELSE IF v.t # "int" THEN FailF(s1)
+  ELSE IF v.t # "int" THEN NoClaimF(s1)
   ELSE [s1 EXCEPT !.ctl = (IF \E i \in 1..Len(h.cases) : h.cases[i].n = v.v
                            THEN h.cases[CHOOSE i \in 1..Len(h.cases) :
                                    h.cases[i].n = v.v /\ \A j \in 1..(i - 1) : h.cases[j].n # v.v].body
